@@ -2347,6 +2347,398 @@ func (x *c12ctx) ruleR5() {
 	c.Floor("C12.R5:constructions", n, 1)
 }
 
+// ---- R8 / R9  one datagram size, announced by QUIC only ----------------------
+
+// c12fieldStore: in is a store to field f (any root).
+func c12fieldStore(in ssa.Instruction, f *types.Var) (*ssa.Store, bool) {
+	st, ok := in.(*ssa.Store)
+	if !ok {
+		return nil, false
+	}
+	fa, ok := st.Addr.(*ssa.FieldAddr)
+	if !ok {
+		return nil, false
+	}
+	if g := structField(fa.X.Type(), fa.Field); g != nil && g.Origin() == f.Origin() {
+		return st, true
+	}
+	return nil, false
+}
+
+func c12structOf(t types.Type) (*types.Named, *types.Struct) {
+	if pt, ok := t.Underlying().(*types.Pointer); ok {
+		t = pt.Elem()
+	}
+	nt, _ := t.(*types.Named)
+	if nt == nil {
+		return nil, nil
+	}
+	st, _ := nt.Underlying().(*types.Struct)
+	return nt, st
+}
+
+// c12sizeMirrors: the fields of the sender's components (types of the sender's
+// own fields, declared in the congestion packages) that hold a copy of the
+// datagram size: a field a component method with the signature of the
+// interface's SetMaxDatagramSize stores its parameter into, or a field with the
+// name and type of the sender's own size field.
+func (x *c12ctx) c12sizeMirrors(smds *ssa.Function) []*types.Var {
+	_, sst := c12structOf(x.sender)
+	if sst == nil {
+		return nil
+	}
+	senderNamed, _ := c12structOf(x.sender)
+	comps := map[*types.Named]bool{}
+	for i := 0; i < sst.NumFields(); i++ {
+		nt, st := c12structOf(sst.Field(i).Type())
+		if nt == nil || st == nil || nt.Obj().Pkg() == nil || nt.Origin() == senderNamed.Origin() {
+			continue
+		}
+		switch nt.Obj().Pkg().Path() {
+		case pBBR, pCommon, pCongestion:
+			comps[nt.Origin()] = true
+		}
+	}
+	seen := map[*types.Var]bool{}
+	var out []*types.Var
+	add := func(f *types.Var) {
+		if f != nil && !seen[f.Origin()] {
+			seen[f.Origin()] = true
+			out = append(out, f.Origin())
+		}
+	}
+	want := c12sigKey(smds.Signature)
+	for _, fn := range x.k.scope {
+		rn := c12recvNamed(fn)
+		if rn == nil || !comps[rn.Origin()] || c12sigKey(fn.Signature) != want || len(fn.Params) < 2 {
+			continue
+		}
+		allInstrs(fn, func(in ssa.Instruction) {
+			st, ok := in.(*ssa.Store)
+			if !ok {
+				return
+			}
+			fa, ok := st.Addr.(*ssa.FieldAddr)
+			if !ok || resolve(fa.X) != ssa.Value(fn.Params[0]) || resolve(st.Val) != ssa.Value(fn.Params[1]) {
+				return
+			}
+			add(structField(fa.X.Type(), fa.Field))
+		})
+	}
+	for nt := range comps {
+		st := nt.Underlying().(*types.Struct)
+		for i := 0; i < st.NumFields(); i++ {
+			if f := st.Field(i); f.Name() == x.fMDS.Name() && types.Identical(f.Type(), x.fMDS.Type()) {
+				add(f)
+			}
+		}
+	}
+	sort.Slice(out, func(i, j int) bool { return out[i].Name() < out[j].Name() })
+	return out
+}
+
+// c12sizeAgree carries the must-pass analysis of R8 for one mirror field.
+type c12sizeAgree struct {
+	x      *c12ctx
+	mirror *types.Var
+	memo   map[*ssa.Function]int
+}
+
+// sets: the instruction certainly updates the mirror (a store to it, or a
+// static call of an in-scope function all of whose normal returns lie behind
+// such an instruction).
+func (a *c12sizeAgree) sets(in ssa.Instruction) bool {
+	if _, ok := c12fieldStore(in, a.mirror); ok {
+		return true
+	}
+	var g *ssa.Function
+	switch ci := in.(type) {
+	case *ssa.Call:
+		g = ci.Call.StaticCallee()
+	case *ssa.Defer: // runs at every exit of the function once registered
+		g = ci.Call.StaticCallee()
+	}
+	return g != nil && a.x.k.inScope[g] && a.must(g)
+}
+
+func (a *c12sizeAgree) must(f *ssa.Function) bool {
+	if r := a.memo[f]; r != 0 {
+		return r == 1
+	}
+	a.memo[f] = 2
+	if len(a.x.returns(f)) > 0 && len(exitsReachableAvoiding(f, nil, a.sets)) == 0 {
+		a.memo[f] = 1
+		return true
+	}
+	return false
+}
+
+// c12sizeEvent: the instruction changes the sender's own datagram size (a store
+// to the field or a static call of an in-scope function that may store it).
+func (x *c12ctx) c12sizeEvent(in ssa.Instruction) bool {
+	if _, ok := c12fieldStore(in, x.fMDS); ok {
+		return true
+	}
+	if ci, ok := in.(ssa.CallInstruction); ok {
+		if g := ci.Common().StaticCallee(); g != nil && x.k.inScope[g] && !x.ctors[g] {
+			return x.k.mod[g][x.fMDS.Origin()]
+		}
+	}
+	return false
+}
+
+// c12flowVal: the value an instruction hands to field f: the stored value, or
+// for a call the argument bound to the parameter every store of f below the
+// callee receives (nil: not traceable).
+func (x *c12ctx) c12flowVal(in ssa.Instruction, f *types.Var, depth int) ssa.Value {
+	if st, ok := c12fieldStore(in, f); ok {
+		return st.Val
+	}
+	ci, ok := in.(ssa.CallInstruction)
+	if !ok || depth <= 0 {
+		return nil
+	}
+	g := ci.Common().StaticCallee()
+	if g == nil || !x.k.inScope[g] {
+		return nil
+	}
+	idx := -1
+	bad := false
+	allInstrs(g, func(in2 ssa.Instruction) {
+		_, isStore := c12fieldStore(in2, f)
+		if !isStore {
+			c2, isCall := in2.(ssa.CallInstruction)
+			if !isCall {
+				return
+			}
+			h := c2.Common().StaticCallee()
+			if h == nil || !x.k.inScope[h] || !x.k.mod[h][f.Origin()] {
+				return
+			}
+		}
+		v := x.c12flowVal(in2, f, depth-1)
+		if v == nil {
+			bad = true
+			return
+		}
+		prm, ok := resolve(v).(*ssa.Parameter)
+		if !ok {
+			bad = true
+			return
+		}
+		for i, q := range g.Params {
+			if q == prm {
+				if idx >= 0 && idx != i {
+					bad = true
+				}
+				idx = i
+			}
+		}
+	})
+	args := ci.Common().Args
+	if bad || idx < 0 || idx >= len(args) {
+		return nil
+	}
+	return args[idx]
+}
+
+func (x *c12ctx) ruleR8(smds *ssa.Function) {
+	c, p := x.c, x.p
+	const r8 = "C12.R8 every path through a sender method that changes the sender's datagram size (maxDatagramSize, directly or through a helper) and returns normally also hands that size to every component holding its own copy of it (the pacer's maxDatagramSize): HasPacingBudget compares the pacer's budget with the sender's size while Pacer.TimeUntilSend waits for the pacer's, so a disagreement leaves the send loop with no budget and no time to wait for"
+	mirrors := x.c12sizeMirrors(smds)
+	c.Floor("C12.R8:size-copies", len(mirrors), 1)
+	nDis := 0
+	for _, g := range mirrors {
+		ag := &c12sizeAgree{x: x, mirror: g, memo: map[*ssa.Function]int{}}
+		for _, fn := range x.bbrFns {
+			if x.ctors[fn] {
+				continue
+			}
+			var events, setters []ssa.Instruction
+			allInstrs(fn, func(in ssa.Instruction) {
+				if x.c12sizeEvent(in) {
+					events = append(events, in)
+				}
+				if ag.sets(in) {
+					setters = append(setters, in)
+				}
+			})
+			if len(events) == 0 {
+				continue
+			}
+			c.Saw(c12name(fn))
+			before := map[ssa.Instruction]bool{}
+			for _, in := range reachFrom(fn, nil, ag.sets, nil) {
+				before[in] = true
+			}
+			why, pos := "", p.Pos(fn.Pos())
+			for _, E := range events {
+				if ag.sets(E) {
+					continue // the event itself (a helper) updates the copy on all its paths
+				}
+				if !before[E] {
+					continue // the copy was updated on every path leading here
+				}
+				if ex := exitsReachableAvoiding(fn, E, ag.sets); len(ex) > 0 {
+					why = "after " + c12expr0(E) + " changes the sender's " + x.fMDS.Name() + " a path reaches the return at " + p.InstrPos(ex[0]) + " without updating " + g.Name() + " of the " + c12ownerName(g) + ": sender and " + c12ownerName(g) + " disagree on the datagram size from then on"
+					pos = p.InstrPos(E)
+					break
+				}
+			}
+			if why != "" && x.k.liftable(fn) && len(x.k.callers[fn]) > 0 {
+				allIn := true
+				for _, cs := range x.k.callers[fn] {
+					if !x.k.inScope[cs.Parent()] {
+						allIn = false
+					}
+				}
+				if allIn {
+					continue // an internal helper: its call is an event of each caller, decided there
+				}
+			}
+			if why == "" {
+				// same size: what the copy receives is the value the sender stores (or the sender's field itself)
+				for _, E := range events {
+					vE := x.c12flowVal(E, x.fMDS, 3)
+					if vE == nil {
+						continue
+					}
+					for _, M := range setters {
+						vM := x.c12flowVal(M, g, 3)
+						if vM == nil || resolve(vM) == resolve(vE) {
+							continue
+						}
+						ds := deps(vM, depOpts{throughCalls: true})
+						rel := ds[resolve(vE)] || ds[vE]
+						for d := range ds {
+							if isLoadOfField(d, x.fMDS) {
+								rel = true
+							}
+							// a value read, after the change, from a field the size change itself re-denominates
+							if u, ok := d.(*ssa.UnOp); ok && u.Op == token.MUL && dominates(E, u) {
+								if fa, ok := u.X.(*ssa.FieldAddr); ok {
+									if f := structField(fa.X.Type(), fa.Field); f != nil {
+										if ec, ok := E.(ssa.CallInstruction); ok && x.k.callMods(ec, f) {
+											rel = true
+										}
+									}
+								}
+							}
+						}
+						if !rel {
+							why = "the " + c12ownerName(g) + " receives " + c12expr(vM, 0) + " while the sender adopts " + c12expr(vE, 0) + ": the two datagram sizes are unrelated values"
+							pos = p.InstrPos(M)
+						}
+					}
+				}
+			}
+			nDis++
+			c.Req(why == "", "C12.R8:"+c12name(fn)+"→"+c12ownerName(g)+"."+g.Name(), r8, pos, why)
+		}
+	}
+	c.Floor("C12.R8:size-changing-methods", nDis, 1)
+}
+
+func c12ownerName(f *types.Var) string {
+	if f.Pkg() != nil {
+		sc := f.Pkg().Scope()
+		for _, nm := range sc.Names() {
+			if tn, ok := sc.Lookup(nm).(*types.TypeName); ok {
+				if st, ok := tn.Type().Underlying().(*types.Struct); ok {
+					for i := 0; i < st.NumFields(); i++ {
+						if st.Field(i).Origin() == f.Origin() {
+							return tn.Name()
+						}
+					}
+				}
+			}
+		}
+	}
+	return "component"
+}
+
+func c12expr0(in ssa.Instruction) string {
+	if st, ok := in.(*ssa.Store); ok {
+		return "the store of " + c12expr(st.Val, 0)
+	}
+	if ci, ok := in.(ssa.CallInstruction); ok {
+		if g := ci.Common().StaticCallee(); g != nil {
+			return "the call of " + c12name(g)
+		}
+	}
+	return "an instruction"
+}
+
+func (x *c12ctx) ruleR9(smds *ssa.Function) {
+	c, p := x.c, x.p
+	const r9 = "C12.R9 the sender's datagram size is written only by the constructor and below SetMaxDatagramSize, and SetMaxDatagramSize is never called (directly, as a method value, or through an interface) from the repository's own code outside a constructor: the size follows exactly the sizes QUIC announces, so QUIC's next announcement (never smaller than its previous one, contract R7) cannot trip the `decreased max datagram size` panic"
+	c.Saw(c12name(smds))
+	// (a) writers
+	memo := map[*ssa.Function]int{}
+	var okWriter func(fn *ssa.Function) bool
+	okWriter = func(fn *ssa.Function) bool {
+		if fn == smds || x.ctors[fn] {
+			return true
+		}
+		if r := memo[fn]; r != 0 {
+			return r == 1
+		}
+		memo[fn] = 1 // recursion among helpers does not add an entry point
+		ok := x.k.inScope[fn] && x.k.liftable(fn) && len(x.k.callers[fn]) > 0
+		if ok {
+			for _, cs := range x.k.callers[fn] {
+				if !okWriter(cs.Parent()) {
+					ok = false
+				}
+			}
+		}
+		if !ok {
+			memo[fn] = 2
+		}
+		return ok
+	}
+	n := 0
+	for _, fn := range x.k.scope {
+		for _, S := range x.storesTo(fn, x.fMDS) {
+			n++
+			key := x.keys.get("C12.R9:" + c12name(fn) + ":writes-" + x.fMDS.Name())
+			c.Req(okWriter(fn), key, r9, p.InstrPos(S), c12name(fn)+" stores "+c12expr(S.Val, 0)+" into "+x.fMDS.Name()+" but is reachable otherwise than from the constructor or SetMaxDatagramSize: the sender's datagram size can leave the sequence of sizes QUIC announced")
+		}
+	}
+	c.Floor("C12.R9:size-stores", n, 2)
+	// (b) callers of the interface method
+	clean := true
+	for _, cs := range x.k.callers[smds] {
+		caller := cs.Parent()
+		if caller.Synthetic != "" || x.ctors[caller] {
+			continue
+		}
+		clean = false
+		c.Bad(x.keys.get("C12.R9:"+c12name(caller)+"→SetMaxDatagramSize"), r9, p.InstrPos(cs), c12name(caller)+" calls the sender's SetMaxDatagramSize itself with "+c12expr(cs.Common().Args[len(cs.Common().Args)-1], 0)+": the sender adopts a size QUIC did not announce, and a later smaller (but for QUIC increasing) announcement panics")
+	}
+	if x.k.valUsed[smds] {
+		clean = false
+		c.Bad("C12.R9:SetMaxDatagramSize:method-value", r9, p.Pos(smds.Pos()), "the sender's SetMaxDatagramSize is used as a function value inside the repository: its callers cannot be enumerated")
+	}
+	for _, fn := range p.RepoFns {
+		allInstrs(fn, func(in ssa.Instruction) {
+			ci, ok := in.(ssa.CallInstruction)
+			if !ok || !ci.Common().IsInvoke() || ci.Common().Method.Name() != smds.Name() {
+				return
+			}
+			it, ok := ci.Common().Value.Type().Underlying().(*types.Interface)
+			if !ok || !types.Implements(x.sender, it) {
+				return
+			}
+			clean = false
+			c.Bad(x.keys.get("C12.R9:"+c12name(fn)+"→SetMaxDatagramSize(interface)"), r9, p.InstrPos(in), c12name(fn)+" calls SetMaxDatagramSize through an interface the BBR sender implements: repository code announces a datagram size to the sender")
+		})
+	}
+	if clean {
+		c.OK("C12.R9:SetMaxDatagramSize:only-QUIC-calls", r9, p.Pos(smds.Pos()))
+	}
+}
+
 // ---- field invariants (R6a index field, maxDatagramSize >= 1) ---------------
 
 func (x *c12ctx) checkInvariant(rule, text string, f *types.Var) int {
@@ -2914,13 +3306,16 @@ func init() {
 			"R3 the bandwidth function BBR hands to the pacer returns >= 65536 B/s on every return; " +
 			"R4 every normal path through OnCongestionEventEx passes a call that must reach RemoveUpTo on the sampler's per-packet queue; " +
 			"R5 the datagram size a BBR sender is seeded with is >= 1 and <= the QUIC connection's own initial packet size whenever that is known; " +
-			"R6 panic-site preconditions in congestion/bbr and congestion/common: (a) indexes into the pacing-gain array and every store to the index field are in range, (b) ring-buffer PopFront/Front/Back/Offset call sites are guarded by a non-empty / in-range test on the same ring, (c) WindowedFilter.estimates is indexed by constants below its creation length, (d) every integer division has a divisor proved non-zero (BandwidthFromDelta at its 5 call sites, window rescale through the invariant maxDatagramSize >= 1, the pacer through R3) or is a named trusted entry, (e) every other explicit index expression of the sender and sampler (ackedPackets[len-1], lostPackets[len-1], fixed arrays) is proved in bounds, inside OnCongestionEventEx using the R7 contract, bounds on helper parameters being lifted to every call site together with the helper's path condition.",
+			"R6 panic-site preconditions in congestion/bbr and congestion/common: (a) indexes into the pacing-gain array and every store to the index field are in range, (b) ring-buffer PopFront/Front/Back/Offset call sites are guarded by a non-empty / in-range test on the same ring, (c) WindowedFilter.estimates is indexed by constants below its creation length, (d) every integer division has a divisor proved non-zero (BandwidthFromDelta at its 5 call sites, window rescale through the invariant maxDatagramSize >= 1, the pacer through R3) or is a named trusted entry, (e) every other explicit index expression of the sender and sampler (ackedPackets[len-1], lostPackets[len-1], fixed arrays) is proved in bounds, inside OnCongestionEventEx using the R7 contract, bounds on helper parameters being lifted to every call site together with the helper's path condition; " +
+			"R8 every path through a sender method that changes the sender's datagram size and returns normally also hands that size to every component holding its own copy (the pacer), before or after, through helpers that must reach the copy's store: otherwise HasPacingBudget (sender's size) and Pacer.TimeUntilSend (pacer's size) disagree and the send loop has no budget and nothing to wait for; " +
+			"R9 the sender's datagram size is written only by the constructor and below SetMaxDatagramSize, and no repository code outside a constructor calls the sender's SetMaxDatagramSize (statically, as a method value or through an interface): the size follows exactly QUIC's announcements, so the not-a-decrease panic there rests on contract R7 alone.",
 		NotDecided: []string{
 			"liveness and throughput (no deadlock, does not settle far below capacity): simulation territory",
 			"bookkeeping *proportional* to packets in flight (R4 gives `pruned on every event`, not the bound); that RemoveUpTo is called with the right packet number",
 			"arithmetic overflow in bandwidth x time products and in the window rescale",
 			"that the ring is not mutated between a non-empty test and the guarded call (e.g. the counted PopFront loop in chooseA0Point), and the ring's internal head/tail index invariants",
 			"R7 itself (inside quic-go both call sites of OnCongestionEventEx pass a non-empty acked or lost slice; SetMaxDatagramSize is only called on an MTU increase): used as a contract by R5/R6e, not re-verified here (needs dependency bodies)",
+			"R8 covers size *changes* after construction: that the pacer's initial copy (a constant in NewPacer) equals the sender's seed is not checked, and `same size` is decided leniently (the pacer's argument must be the adopted value, the sender's size field, or derived from either / from a field the change re-denominates)",
 			"sites entered in the justification tables (overshoot-branch MinRTT divisor, ring modulo, lostPackets[len-1] behind the isValid flag, debug formatter): reported as trusted, not proved",
 		},
 		Assumptions: []string{
@@ -3065,6 +3460,12 @@ func checkC12(c *Check) {
 	good := x.ruleR3()
 	x.ruleR4(onEvent)
 	x.ruleR5()
+	if smds := p.MethodOf(x.sender, "SetMaxDatagramSize"); smds == nil || len(smds.Blocks) == 0 {
+		c.Unres("method SetMaxDatagramSize of bbr." + sn)
+	} else {
+		x.ruleR8(smds)
+		x.ruleR9(smds)
+	}
 	x.ruleR6a(sites, idxFields)
 	x.ruleR6b()
 	x.ruleR6c()
